@@ -13,7 +13,7 @@ from wasix import *
 PM = 4096                     # host PATH_MAX (POSIX limits.h on Linux), restated
 NSNAME = {0: 'wasi_snapshot_preview1', 1: 'wasi_unstable'}
 E1_CALLS = ['create_directory', 'remove_directory', 'unlink_file', 'filestat_get', 'open', 'readlink', 'symlink', 'rename_old', 'rename_new']
-E2_NAMES = ['a', 'b', 'd', 'd/a', 'missing/x', '<absolute path of a>', '<256-byte component>', 'a (relative to opened d)', 'n (relative to opened d)']
+E2_NAMES = ['a', 'b', 'd', 'd/a', 'missing/x', '<absolute path of a>', '<256-byte component>', 'a (relative to opened d)', 'n (relative to opened d)', 'a/', 'b/']
 E2_OPS = {'md': 'path_create_directory', 'rd': 'path_remove_directory', 'ul': 'path_unlink_file', 'rn': 'path_rename', 'sl': 'path_symlink',
           'rl': 'path_readlink', 'fs': 'path_filestat_get', 'op': 'path_open'}
 RL_MODES = {0: '0', 1: '1', 2: 'exact', 3: 'exact+1'}
